@@ -594,11 +594,20 @@ class StmtMixin:
             mark = len(self.obligations)
             base = st.fork()
             self._frame_missing = {}
-            res = self._exec_loop_with_invariant(s, base, spec, kind, iterable, extra, item_fn)
+            try:
+                res = self._exec_loop_with_invariant(s, base, spec, kind, iterable, extra, item_fn)
+            except EngineError:
+                # obligations of an aborted attempt (possibly with an incomplete havoc set) are not kept
+                del self.obligations[mark:]
+                raise
             missing = {k: v for k, v in self._frame_missing.items() if k not in extra}
             if not missing:
                 return res
             del self.obligations[mark:]
+            try:
+                self.apply_extra_havoc(base.fork(), missing)      # can everything the body touches be havocked at all?
+            except EngineError:
+                raise
             extra.update(missing)
         raise EngineError(f'loop at line {s.lineno}: havoc set does not stabilise')
 
